@@ -10,7 +10,7 @@
 (* the last area of a row fed in unsorted order, must violate the relation.   *)
 (* The stage-2 states are the universes replayed on real records.             *)
 EXTENDS Layout, RecordSM, TLC
-CONSTANTS LenSet, CoreSizes, Hoods, SubSizes, GeneSets
+CONSTANTS LenSet, CoreSizes, HoodsL, HoodsR, Core2Sizes, Hoods2, SubSizes, SubStarts, GeneSets
 VARIABLES stage, u
 vars == <<stage, u>>
 
@@ -18,25 +18,33 @@ PA(core, extent, product) == [kind |-> "proto", core |-> core, extent |-> extent
 SA(extent) == [kind |-> "sub", core |-> extent, extent |-> extent, product |-> "sub"]
 GN(loc, prods) == [loc |-> loc, core_for |-> prods]
 Rings == {[L |-> n, circ |-> c] : n \in LenSet, c \in BOOLEAN}
-Cores(r) == {Loc(p, 1) : p \in {p \in ArcParts(r) \cup CrossParts(r) : Size(Loc(p, 1)) \in CoreSizes}}
+CoresOf(r, sizes) == {Loc(p, 1) : p \in {p \in ArcParts(r) \cup CrossParts(r) : Size(Loc(p, 1)) \in sizes}}
+(* neighbourhoods of independent width to the left and to the right of the core: clipped on a line, wrapped on a ring *)
+ExtendLR(r, core, dl, dr) ==
+    IF ~r.circ THEN Simple(MaxOf({0, OuterStart(core) - dl}), MinOf({r.L, OuterEnd(core) + dr}), 1)
+    ELSE LET n == Size(core) + dl + dr
+         IN  IF n >= r.L THEN Simple(0, r.L, 1) ELSE SpanOfArc(r, (OuterStart(core) - dl) % r.L, n)
 (* a core over the origin inside an extent that is the whole record as one part is refused by Protocluster() *)
-Shapes(r) == {s \in {[core |-> c, extent |-> Extend(r, c, d)] : c \in Cores(r), d \in Hoods} : Bridges(s.core) => Bridges(s.extent)}
-SubExtents(r) == {Loc(p, 1) : p \in {p \in ArcParts(r) \cup CrossParts(r) : Size(Loc(p, 1)) \in SubSizes}}
-(* a total order on shapes so that unordered pairs are enumerated once *)
-ShapeKey(s) == <<OuterStart(s.core), Size(s.core), OuterStart(s.extent), Size(s.extent)>>
-KeyLeq(a, b) == \/ a[1] < b[1]
-                \/ a[1] = b[1] /\ a[2] < b[2]
-                \/ a[1] = b[1] /\ a[2] = b[2] /\ a[3] < b[3]
-                \/ a[1] = b[1] /\ a[2] = b[2] /\ a[3] = b[3] /\ a[4] <= b[4]
-(* gene sets: 0 none; 1 plain genes, one over the origin (ring) / at both record ends (line), one reverse;
-   2 one core gene per protocluster on the first base of its core, annotated for both products (cores that share
-     it form a chemical hybrid), plus a reverse-strand gene over the origin on a ring *)
+Legal(s) == Bridges(s.core) => Bridges(s.extent)
+Shapes1(r) == {s \in {[core |-> c, extent |-> ExtendLR(r, c, dl, dr)] : c \in CoresOf(r, CoreSizes), dl \in HoodsL, dr \in HoodsR} : Legal(s)}
+Shapes2(r) == {s \in {[core |-> c, extent |-> ExtendLR(r, c, d, d)] : c \in CoresOf(r, Core2Sizes), d \in Hoods2} : Legal(s)}
+SubExtents(r) == {Loc(p, 1) : p \in {p \in ArcParts(r) \cup CrossParts(r) : Size(Loc(p, 1)) \in SubSizes /\ p[1][1] \in SubStarts}}
+(* gene sets: 0 none; 1 plain genes: one over the origin (ring) / at both record ends (line), one reverse;
+   2 one single-base core gene per protocluster on the first base of its core, annotated for both products (cores that
+     share it form a chemical hybrid), plus a reverse-strand gene over the origin on a ring; 3 both *)
+PlainGenes(r) ==
+    IF r.circ THEN <<GN(Loc(<< <<r.L - 1, r.L>>, <<0, 1>> >>, 1), <<>>), GN(Simple(2, 4, -1), <<>>), GN(Simple(r.L - 4, r.L - 2, 1), <<>>)>>
+    ELSE <<GN(Simple(0, 2, 1), <<>>), GN(Simple(2, 4, -1), <<>>), GN(Simple(r.L - 2, r.L, 1), <<>>)>>
+CoreGenes(r, shapes) ==
+    [i \in DOMAIN shapes |->
+        GN(Simple(OuterStart(shapes[i].core), OuterStart(shapes[i].core) + 1,
+                  IF i = 2 /\ OuterStart(shapes[1].core) = OuterStart(shapes[2].core) THEN -1 ELSE 1), <<"a", "b">>)]
+    \o (IF r.circ THEN <<GN(Loc(<< <<0, 1>>, <<r.L - 2, r.L>> >>, -1), <<>>)>> ELSE <<>>)
 Genes(r, shapes, k) ==
     CASE k = 0 -> <<>>
-      [] k = 1 -> IF r.circ THEN <<GN(Loc(<< <<r.L - 1, r.L>>, <<0, 1>> >>, 1), <<>>), GN(Simple(2, 3, -1), <<>>), GN(Simple(r.L - 3, r.L - 2, 1), <<>>)>>
-                  ELSE <<GN(Simple(0, 1, 1), <<>>), GN(Simple(2, 3, -1), <<>>), GN(Simple(r.L - 1, r.L, 1), <<>>)>>
-      [] k = 2 -> [i \in DOMAIN shapes |-> GN(Simple(OuterStart(shapes[i].core), OuterStart(shapes[i].core) + 1, 1), <<"a", "b">>)]
-                  \o (IF r.circ THEN <<GN(Loc(<< <<0, 1>>, <<r.L - 2, r.L>> >>, -1), <<>>)>> ELSE <<>>)
+      [] k = 1 -> PlainGenes(r)
+      [] k = 2 -> CoreGenes(r, shapes)
+      [] k = 3 -> PlainGenes(r) \o CoreGenes(r, shapes)
 Products == <<"a", "b">>
 MkUni(r, shapes, subs, k) ==
     [L |-> r.L, circ |-> r.circ, genes |-> Genes(r, shapes, k),
@@ -48,15 +56,14 @@ Dummy == MkUni([L |-> 4, circ |-> FALSE], <<>>, <<>>, 0)
 Init == stage = 0 /\ u = Dummy
 (* level 1: the record and its first area (shards the enumeration over the workers) *)
 PickFirstProto == /\ stage = 0 /\ stage' = 1
-                  /\ \E r \in Rings : \E s \in Shapes(r) : u' = MkUni(r, <<s>>, <<>>, 0)
+                  /\ \E r \in Rings : \E s \in Shapes1(r) : u' = MkUni(r, <<s>>, <<>>, 0)
 PickNoProto == /\ stage = 0 /\ stage' = 1
                /\ \E r \in Rings : u' = MkUni(r, <<>>, <<>>, 0)
 (* level 2: optional second protocluster, optional subregion, gene set *)
 Complete == /\ stage = 1 /\ stage' = 2
             /\ LET r == [L |-> u.L, circ |-> u.circ]
                    first == [i \in DOMAIN u.areas |-> [core |-> u.areas[i].core, extent |-> u.areas[i].extent]]
-                   seconds == IF first = <<>> THEN {<<>>}
-                              ELSE {<<>>} \cup {<<s>> : s \in {s \in Shapes(r) : KeyLeq(ShapeKey(first[1]), ShapeKey(s))}}
+                   seconds == IF first = <<>> THEN {<<>>} ELSE {<<>>} \cup {<<s>> : s \in Shapes2(r)}
                    subsets == {<<>>} \cup {<<x>> : x \in SubExtents(r)} \cup {<<Simple(0, r.L, 1)>>}
                IN  \E sec \in seconds : \E subs \in subsets : \E k \in GeneSets :
                        /\ (first = <<>> => subs # <<>>)
@@ -65,33 +72,43 @@ Next == PickFirstProto \/ PickNoProto \/ Complete
 Spec == Init /\ [][Next]_vars
 
 (* --- regions of the model record ------------------------------------------------------------------------ *)
+(* protoclusters come first in u.areas, so their ids are their indices in the arrangement of Candidates.tla *)
 Built ==
     LET protos == {i \in DOMAIN u.areas : u.areas[i].kind = "proto"}
-        s0 == [genes |-> DOMAIN u.genes, protos |-> protos, subs |-> DOMAIN u.areas \ protos, cands |-> {}, regions |-> {}]
-        s1 == [s0 EXCEPT !.cands = ModelCands(u, s0)]
-    IN  [s1 EXCEPT !.regions = ModelRegions(u, s1)]
+        arr == [L |-> u.L, circ |-> u.circ, genes |-> u.genes,
+                protos |-> [i \in 1..Cardinality(protos) |-> [core |-> u.areas[i].core, extent |-> u.areas[i].extent, product |-> u.areas[i].product]]]
+        cands == IF protos = {} THEN {}
+                 ELSE {[kind |-> c.kind, members |-> c.members, loc |-> ExtSpan(arr, c.members)] : c \in RefCands(arr)}
+        ccore == [c \in cands |-> CoreSpan(arr, c.members)]
+        s1 == [genes |-> DOMAIN u.genes, protos |-> protos, subs |-> DOMAIN u.areas \ protos, cands |-> cands, regions |-> {}]
+    IN  [st |-> [s1 EXCEPT !.regions = ModelRegions(u, s1)], ccore |-> ccore]
 RegionOf(r) ==
     LET cands == SetToSeq(r.cands)
         protos == SetToSeq(UNION {c.members : c \in r.cands})
         subs == SetToSeq(r.subs)
-        genes == SetToSeq({g \in DOMAIN u.genes : Contains(r.loc, u.genes[g].loc)})
+        genes == SelectSeq(u.genes, LAMBDA g : Contains(r.loc, g.loc))
     IN  [L |-> u.L, circ |-> u.circ, loc |-> r.loc,
-         areas |-> [i \in DOMAIN cands |-> [kind |-> "cand", core |-> cands[i].loc, extent |-> cands[i].loc, single |-> cands[i].kind = "single"]]
-                   \o [i \in DOMAIN protos |-> [kind |-> "proto", core |-> u.areas[protos[i]].core, extent |-> u.areas[protos[i]].extent, single |-> FALSE]]
-                   \o [i \in DOMAIN subs |-> [kind |-> "sub", core |-> u.areas[subs[i]].extent, extent |-> u.areas[subs[i]].extent, single |-> FALSE]],
-         genes |-> [i \in DOMAIN genes |-> u.genes[genes[i]].loc]]
-Regions == {RegionOf(r) : r \in Built.regions}
+         (* ccore: what the feature reports as its core coordinates (a candidate: the span of its members' cores) *)
+         areas |-> [i \in DOMAIN cands |-> [kind |-> "cand", core |-> cands[i].loc, extent |-> cands[i].loc, single |-> cands[i].kind = "single",
+                                             ccore |-> Built.ccore[cands[i]]]]
+                   \o [i \in DOMAIN protos |-> [kind |-> "proto", core |-> u.areas[protos[i]].core, extent |-> u.areas[protos[i]].extent, single |-> FALSE,
+                                                 ccore |-> u.areas[protos[i]].core]]
+                   \o [i \in DOMAIN subs |-> [kind |-> "sub", core |-> u.areas[subs[i]].extent, extent |-> u.areas[subs[i]].extent, single |-> FALSE,
+                                               ccore |-> u.areas[subs[i]].extent]],
+         genes |-> [i \in DOMAIN genes |-> genes[i].loc]]
+Regions == {RegionOf(r) : r \in Built.st.regions}
 
 (* --- invariants ----------------------------------------------------------------------------------------------- *)
-(* the relation is satisfiable: the constructive layout passes every clause *)
-RefSatisfies == stage = 2 => \A reg \in Regions : LyFailed(reg, LyRef(reg)) = {}
-(* and it is the best possible packing per kind *)
-RefRowsMinimal == stage = 2 => \A reg \in Regions :
+(* evaluated once per state: (1) the relation is satisfiable: the constructive layout passes every clause;
+   (2) it is the best possible packing per kind: as many rows as the deepest stack of areas over one coordinate;
+   (3) regions never overlap themselves, so "after the origin" is well defined *)
+RefOK(reg) ==
     LET ref == LyRef(reg)
         of(kind) == SelectSeq(ref.areas, LAMBDA p : p.kind = kind)
-    IN  ref.rows = <<LyDepth(of("cand")), LyDepth(of("sub")), LyDepth(of("proto"))>>
-(* regions never overlap themselves: what "after the origin" means is well defined *)
-RegionsAreSpans == stage = 2 => \A reg \in Regions : IsSpan(LyRing(reg), reg.loc) /\ WellFormed(LyRing(reg), reg.loc)
+    IN  /\ LyFailed(reg, ref) = {}
+        /\ ref.rows = <<LyDepth(of("cand")), LyDepth(of("sub")), LyDepth(of("proto"))>>
+        /\ IsSpan(LyRing(reg), reg.loc) /\ WellFormed(LyRing(reg), reg.loc)
+RefSatisfiesAndMinimal == stage = 2 => \A reg \in Regions : RefOK(reg)
 
 (* negative control 1: forgetting the +L shift for coordinates after the origin is rejected wherever a region runs
    over the origin *)
@@ -105,4 +122,54 @@ OneRowAccepted == stage = 2 => \A reg \in Regions : LyFailed(reg, OneRow(LyRef(r
 (* negative control 3: dropping the second half of a split area is rejected *)
 DropLinked(out) == [out EXCEPT !.areas = SelectSeq(out.areas, LAMBDA p : p.group = 0 \/ p.ne = u.L)]
 DropLinkedAccepted == stage = 2 => \A reg \in Regions : LyFailed(reg, DropLinked(LyRef(reg))) = {}
+
+(* --- implementation-shaped companion: the branches of adjust_cross_origin_area / build_area_rows ---------------------- *)
+(* variant "as_found": an area "has a core" when the feature has core coordinates (candidates do), and the side of the   *)
+(* origin a core lies on is guessed from the record midpoint; variant "repaired": only protoclusters have a core and the  *)
+(* side is read from the coordinates.  Rows are packed with the reference packing (Row/pack are not modelled).            *)
+ImplPieces(reg, a, idx, variant) ==
+    LET L == reg.L
+        spanning == LySpanning(reg)
+        over == reg.circ /\ (spanning \/ (LyStart(reg) = 0 /\ LyEnd(reg) = L))
+        p == [kind |-> a.kind, start |-> OuterStart(a.core), end |-> OuterEnd(a.core),
+              ns |-> OuterStart(a.extent), ne |-> OuterEnd(a.extent), row |-> 0, group |-> 0]
+        cs == OuterStart(a.ccore)
+        ce == OuterEnd(a.ccore)
+        hasCore == IF variant = "repaired" THEN a.kind = "proto" ELSE a.kind \in {"proto", "cand"}
+        coreBefore == IF variant = "repaired" THEN cs >= p.ns ELSE L - cs < ce
+        g == [p EXCEPT !.group = idx]
+    IN  IF over /\ Bridges(a.extent) THEN
+            IF ~hasCore THEN
+                IF spanning THEN <<[p EXCEPT !.end = @ + L, !.ne = p.end + L]>>
+                ELSE <<[g EXCEPT !.end = L, !.ne = L], [g EXCEPT !.start = 0, !.ns = 0, !.end = p.ne, !.ne = p.ne]>>
+            ELSE IF Bridges(a.ccore) THEN
+                IF spanning THEN <<[p EXCEPT !.end = @ + L, !.ne = @ + L]>>
+                ELSE <<[g EXCEPT !.end = L, !.ne = L], [g EXCEPT !.start = 0, !.ns = 0]>>
+            ELSE IF coreBefore THEN
+                IF spanning THEN <<[p EXCEPT !.ne = @ + L]>>
+                ELSE <<[g EXCEPT !.ne = L], [g EXCEPT !.start = 0, !.end = 0, !.ns = 0]>>
+            ELSE
+                IF spanning THEN <<[p EXCEPT !.start = @ + L, !.end = @ + L, !.ne = @ + L]>>
+                ELSE <<[g EXCEPT !.start = L, !.end = L, !.ne = L], [g EXCEPT !.ns = 0]>>
+        ELSE IF over /\ spanning /\ Bases(a.extent) \subseteq 0..(LyEnd(reg) - 1)
+             THEN <<[p EXCEPT !.start = @ + L, !.end = @ + L, !.ns = @ + L, !.ne = @ + L]>>
+        ELSE <<p>>
+ImplLayout(reg, variant) ==
+    LET ref == LyRef(reg)
+        hasSubs == \E i \in DOMAIN reg.areas : reg.areas[i].kind = "sub"
+        of(kind) == LyFlatten([i \in DOMAIN reg.areas |->
+                        IF reg.areas[i].kind = kind /\ (kind # "cand" \/ hasSubs \/ ~reg.areas[i].single)
+                        THEN ImplPieces(reg, reg.areas[i], i, variant) ELSE <<>>], 1)
+        (* a piece whose end precedes its start cannot be packed by coordinates: it gets a row of its own *)
+        sane(ps) == SelectSeq(ps, LAMBDA q : q.ns < q.ne)
+        odd(ps) == SelectSeq(ps, LAMBDA q : q.ns >= q.ne)
+        c == LyPack(LySorted(sane(of("cand"))), 0)
+        sb == LyPack(LySorted(sane(of("sub"))), c.rows)
+        pr == LyPack(LySorted(sane(of("proto"))), c.rows + sb.rows)
+        rest == odd(of("cand")) \o odd(of("sub")) \o odd(of("proto"))
+    IN  [ann |-> ref.ann, genes |-> ref.genes,
+         areas |-> c.pieces \o sb.pieces \o pr.pieces \o [i \in DOMAIN rest |-> [rest[i] EXCEPT !.row = 100 + i]]]
+ImplRepairedSatisfies == stage = 2 => \A reg \in Regions : LyFailed(reg, ImplLayout(reg, "repaired")) = {}
+(* expected to be violated: TLC exhibits the design-level counterexample of the branches as found *)
+ImplAsFoundSatisfies == stage = 2 => \A reg \in Regions : LyFailed(reg, ImplLayout(reg, "as_found")) = {}
 =============================================================================
